@@ -215,6 +215,32 @@ CLAIMED["C10"] = dict(
     technique="Coq proof (fold = running minimum; token-level proof of the regex scanner; purity) + file-level differential correspondence for six formats",
     design="5/C10")
 
+CLAIMED["C15"] = dict(
+    text=("Cell-level model of the rescoring merge for Andromeda-style identifiers (PSM-id parsing with underscores in raw-file "
+          "names, peptide normalisation, results dictionary with later rows overriding, per-row update, first header only). Theorems: "
+          "a written row differs from its source in at most the score and PEP cells and has the same length; match-between-runs rows "
+          "pass through; an MS/MS row is rewritten with the rescored values iff (raw file, scan, modified sequence) is in the results "
+          "and dropped otherwise; without results the files are concatenated under the first header; PSM ids round-trip for raw-file "
+          "names containing underscores. Correspondence: update_evidence_from_pout.main on generated file sets compared cell by cell, "
+          "plus an independent Python join as property monitor."),
+    note=COMMON_NOTE + "csv and repr(float) are the runtime's (tabulated). Prosit/ProForma branch not modelled. Result files without "
+         "any PSM row behave like no result files (code tests the dictionary, not the file list). Axioms: none.",
+    technique="Coq proof over a cell-level row model + file-level differential correspondence + independent join monitor",
+    design="5/C15")
+CLAIMED["C16"] = dict(
+    text=("Model of the publication protocol on the two paths (final, final.tmp) with crash states (any prefix of the operation list; "
+          "an unclosed temporary file holds any prefix of its data). Theorems for all crash points and inputs: the final path holds its "
+          "initial content or the complete output, never a proper prefix; a re-run from any crash state yields the bytes of an "
+          "uninterrupted run and further re-runs change nothing; an existing final output is never modified. PARTIAL: atomicity of "
+          "rename(2) and the correspondence between the real steps and the modelled operations are runtime facts; they are explored by "
+          "strace traces of both real steps (openat/rename on the two paths must be exactly open-truncate tmp, rename tmp->final; "
+          "nothing on an existing output) and by SIGKILL at every row write, before and after the rename, each followed by two re-runs "
+          "compared byte for byte."),
+    note=COMMON_NOTE + "PARTIAL: OS crash semantics (rename atomicity, data written before close survives SIGKILL) trusted; power "
+         "loss outside the property. Kill points are injected from outside (wrapping tsv.get_tsv_writer / os.rename). Axioms: none.",
+    technique="Coq proof over a crash-state model of the protocol + syscall-trace correspondence + exhaustive kill-point runs",
+    design="5/C16")
+
 ALL = [f"C{i:02d}" for i in range(1, 21)]
 
 
